@@ -14,6 +14,7 @@ package compare
 
 import (
 	"fmt"
+	"strconv"
 	"strings"
 )
 
@@ -69,7 +70,9 @@ func Compare(a, b any) int {
 		}
 	default:
 		{
-			return strings.Compare(fmt.Sprintf("%v", a), fmt.Sprintf("%v", b))
+			// a string (or anything else) on the left: a number on the right
+			// is compared by the same decimal text
+			return strings.Compare(fmt.Sprintf("%v", a), decimalText(b))
 		}
 	}
 }
@@ -149,10 +152,23 @@ func compare[T int | int32 | int64 | int16 | int8 | uint | uint32 | uint64 | uin
 		}
 	case string:
 		{
-			return strings.Compare(fmt.Sprintf("%v", a), t)
+			return strings.Compare(decimalText(a), t)
 		}
 	}
-	return strings.Compare(fmt.Sprintf("%v", a), fmt.Sprintf("%v", v))
+	return strings.Compare(decimalText(a), fmt.Sprintf("%v", v))
+}
+
+// decimalText is the text a number is compared by against a string: its
+// decimal text, without the exponent %v switches to for floats from 1e21 on
+// and - for whole floats - from 1e6 on (1000000, not 1e+06)
+func decimalText(a any) string {
+	switch t := a.(type) {
+	case float64:
+		return strconv.FormatFloat(t, 'f', -1, 64)
+	case float32:
+		return strconv.FormatFloat(float64(t), 'f', -1, 32)
+	}
+	return fmt.Sprintf("%v", a)
 }
 
 // number is a numeric value split by kind: a signed integer, an unsigned
